@@ -234,8 +234,9 @@ def canonize (specs : List Spec) (clen : Int) : Except Fault (List Spec) :=
 
 /-! ### strListGetItem(str, ',', &item, &ilen, &pos) -/
 
-/-- bytes skipped in front of an item: `delim[2]` = SP, ',', HT, CR, LF -/
-def isListLeading (c : UInt8) : Bool := c == 32 || c == 44 || c == 9 || c == 13 || c == 10
+/-- bytes skipped in front of an item: `delim[2]` = SP, ',', HT, CR, LF, VT, FF (all `xisspace` bytes and the comma; VT/FF
+since squid commit 43aac5c) -/
+def isListLeading (c : UInt8) : Bool := c == 32 || c == 44 || (9 ≤ c && c ≤ 13)
 
 def skipLeading : Bytes → Bytes
   | [] => []
